@@ -134,10 +134,6 @@ def candidates(rng, sz):
         return v
     cands.append(enum(did, [variant("Known"), dflt("Other", "unknown command `{0}`", True)])); did += 1
     cands.append(enum(did, [dflt("Other", "fixed text", False), variant("Known")], prefix="p:")); did += 1
-    # keys meant for EnumString (`default_with` on a variant) change nothing for Display: the variant keeps its fixed name
-    cands.append(enum(did, [variant("Timeout", "tuple", [field("u8")], dwith="dw_u8"), variant("OffWhite", "tuple", [field("String")], dwith="dw_string", ser=["ow", "off-white"]),
-                            variant("Plain")], prefix="colour/", style="snake_case")); did += 1
-    cands.append(enum(did, [variant("Plain"), variant("Flag", "tuple", [field("bool")], dwith="dw_bool")])); did += 1
     idents = ["Red", "Green", "Blue", "Cyan"]
     for k in range(sz["interp"] // 3):
         vs = [interp_variant(rng, idents[j], rng.choice(["tuple", "named"])) for j in range(3)]
@@ -148,6 +144,10 @@ def candidates(rng, sz):
             vs.append(variant("FixedTuple", "tuple", [field("u8")], ser=rng.choice([[], ["ft", "f"]])))
         cands.append(enum(did, vs, prefix=rng.choice([None, None, "p:", "é"]), style=rng.choice(["none", "snake_case"])))
         did += 1
+    # keys meant for EnumString (`default_with` on a variant) change nothing for Display: the variant keeps its fixed name
+    cands.append(enum(did, [variant("Timeout", "tuple", [field("u8")], dwith="dw_u8"), variant("OffWhite", "tuple", [field("String")], dwith="dw_string", ser=["ow", "off-white"]),
+                            variant("Plain")], prefix="colour/", style="snake_case")); did += 1
+    cands.append(enum(did, [variant("Plain"), variant("Flag", "tuple", [field("bool")], dwith="dw_bool")])); did += 1
     return cands
 
 
